@@ -113,6 +113,7 @@ package smpp
 //@   ensures [C19 negative] parseok(v) && parsedur(v) < 0 ==> result1 != nil && result0 == eps
 //@   ensures [C19 zero] parseok(v) && isRelative && parsedur(v) >= 0 && secs(v) == 0 ==> result1 == nil && result0 == eps
 //@   ensures [C19 relative] parseok(v) && isRelative && result1 == nil && secs(v) > 0 ==> result0 == cat("0000", dec2(parsedur(v) / 86400000000000), dec2((parsedur(v) / 3600000000000) % 24), dec2((parsedur(v) / 60000000000) % 60), dec2((parsedur(v) / 1000000000) % 60), "000R") && parsedur(v) / 86400000000000 <= 99 && len(result0) == 16
+//@   ensures [C19 century] parseok(v) && !isRelative && parsedur(v) >= 3153600000000000000 ==> result1 != nil
 //@   ensures [C19 absolute] parseok(v) && !isRelative && result1 == nil ==> result0 == cat(tfmt12(inst(now) + parsedur(v)), "000+") && len(result0) == 16
 
 // The four fields of the relative form add up to the duration in whole seconds (pure integer arithmetic).
